@@ -208,6 +208,22 @@ func Chain(chain string, n int, t0, dt int64, salt uint64) []*Header {
 	return out
 }
 
+// ChainFrom builds n headers at heights base+1 .. base+n (64-bit boundary tests).
+func ChainFrom(chain string, base uint64, n int, t0, dt int64, salt uint64) []*Header {
+	out := Chain(chain, n, t0, dt, salt)
+	var prev *Header
+	for _, h := range out {
+		h.H += base
+		h.hash = nil
+		h.Prev = nil
+		if prev != nil {
+			h.Prev = prev.Hash()
+		}
+		prev = h
+	}
+	return out
+}
+
 // Extend appends k headers on top of `from`.
 func Extend(from *Header, k int, dt int64, salt uint64) []*Header {
 	out := make([]*Header, 0, k)
